@@ -12,6 +12,7 @@
 #![allow(rustc::internal)]
 
 extern crate rustc_abi;
+extern crate rustc_data_structures;
 extern crate rustc_driver;
 extern crate rustc_hir;
 extern crate rustc_interface;
@@ -1163,6 +1164,7 @@ fn dump_all<'tcx>(tcx: TyCtxt<'tcx>, krate: &str, kind: &str) -> String {
         d.j.comma();
         // 1. Clone every built MIR body BEFORE anything else is queried: printing types, signatures or
         //    evaluating constants can trigger borrowck/promotion of some body, which steals its mir_built.
+        //    (Bodies consumed while another body was being built are taken from the provider's side table.)
         let mut cloned: Vec<(LocalDefId, mir::Body<'tcx>)> = Vec::new();
         let mut stolen = 0usize;
         for def in tcx.hir_body_owners() {
@@ -1172,6 +1174,10 @@ fn dump_all<'tcx>(tcx: TyCtxt<'tcx>, krate: &str, kind: &str) -> String {
                 continue;
             }
             let steal = tcx.mir_built(def);
+            if let Some(b) = saved_body(def) {
+                cloned.push((def, b.clone()));
+                continue;
+            }
             if steal.is_stolen() {
                 stolen += 1;
                 continue;
@@ -1205,12 +1211,50 @@ fn dump_all<'tcx>(tcx: TyCtxt<'tcx>, krate: &str, kind: &str) -> String {
         d.j.s
 }
 
+// Built MIR is cloned at the moment it is produced: a wrapper around the `mir_built` provider copies each body into
+// this side table before any later query (promotion for const evaluation, borrowck) can steal it.
+struct Saved(Vec<(LocalDefId, *mut ())>);
+unsafe impl Send for Saved {}
+static SAVED: std::sync::Mutex<Saved> = std::sync::Mutex::new(Saved(Vec::new()));
+static ORIG_MIR_BUILT: std::sync::OnceLock<
+    for<'tcx> fn(TyCtxt<'tcx>, LocalDefId) -> &'tcx rustc_data_structures::steal::Steal<mir::Body<'tcx>>,
+> = std::sync::OnceLock::new();
+
+fn saving_mir_built<'tcx>(tcx: TyCtxt<'tcx>, def: LocalDefId) -> &'tcx rustc_data_structures::steal::Steal<mir::Body<'tcx>> {
+    let orig = ORIG_MIR_BUILT.get().expect("provider saved");
+    let steal = orig(tcx, def);
+    let copy: Box<mir::Body<'tcx>> = Box::new(steal.borrow().clone());
+    let raw = Box::into_raw(copy) as *mut ();
+    SAVED.lock().unwrap().0.push((def, raw));
+    steal
+}
+
+fn saved_body<'tcx>(def: LocalDefId) -> Option<&'tcx mir::Body<'tcx>> {
+    let g = SAVED.lock().unwrap();
+    for (d, p) in g.0.iter() {
+        if *d == def {
+            // the copies live until the process exits; the lifetime is that of the compilation session
+            return Some(unsafe { &*(*p as *const mir::Body<'tcx>) });
+        }
+    }
+    None
+}
+
 struct Cb {
     out_dir: Option<String>,
     kind: String,
 }
 
 impl Callbacks for Cb {
+    fn config(&mut self, config: &mut rustc_interface::interface::Config) {
+        if self.out_dir.is_some() {
+            config.override_queries = Some(|_sess, providers| {
+                let _ = ORIG_MIR_BUILT.set(providers.queries.mir_built);
+                providers.queries.mir_built = saving_mir_built;
+            });
+        }
+    }
+
     fn after_expansion<'tcx>(&mut self, _c: &rustc_interface::interface::Compiler, tcx: TyCtxt<'tcx>) -> Compilation {
         let Some(dir) = self.out_dir.clone() else {
             return Compilation::Continue;
